@@ -21,6 +21,7 @@ def setup(symbolic):
         from vxlib.symx import shims, loader
         loader.install()
         shims.install()
+    sweep.snapshot_state()
 
 
 # ---------------------------------------------------------------------------------- specification
@@ -122,6 +123,9 @@ def structures(tier):
     sts = [{'kind': 'site', 'i': i} for i in range(len(SITES))]
     sts.append({'kind': 'ioctl'})
     sts.append({'kind': 'perf-history'})
+    # the same decoder on other words first (process-level memos keyed by part of the word), then the judged word
+    for n in sorted({s[0] for s in SITES if s[1] == 'pair'} | {'BSC_ioctl'}):
+        sts.append({'kind': 'twice', 'name': n})
     if tier == 'thorough':
         for acc in range(4):
             for hi in range(8):
@@ -193,6 +197,8 @@ def run(ctx, st):
         return run_pathwise(ctx, st)
     if st['kind'] == 'perf-history':
         return run_perf_history(ctx, st)
+    if st['kind'] == 'twice':
+        return run_twice(ctx, st)
     site = SITES[st['i']]
     name, window, argi, fld, family, pos = site
     a = [ctx.int('a%d' % i) for i in range(4)]
@@ -286,6 +292,33 @@ def run_single(ctx, name, a, q=0):
 
 
 _IOC_RE = re.compile(r"_IOC\((?P<dir>[^,]*), '(?P<g>.*)', (?P<n>-?\d+), (?P<l>-?\d+)\)", re.S)
+
+
+def run_twice(ctx, st):
+    """a flag word decodes to the same text whether or not the same decoder handled another word before it"""
+    name = st['name']
+    a = [ctx.int('a%d' % i) for i in range(4)]
+    b = [ctx.int('b%d' % i) for i in range(4)]
+    r = [ctx.int('r%d' % i) for i in range(4)]
+    if name == 'BSC_ioctl':
+        a[1], b[1] = ctx.int('a1w', 32), ctx.int('b1w', 32)
+        for x in (a[1], b[1]):
+            ctx.assume(Or(*[(x & D.IOC_DIRMASK) == k for k in D.IOC_DIRS]))
+    sweep.reset_state()
+    o1 = sweep.run_window(ctx, name, b, r)
+    if o1.kind != 'text':
+        ctx.reach('outcome:' + o1.kind); ctx.reach(); return
+    sweep.reset_state()
+    sweep.run_window(ctx, name, a, r)
+    o2 = sweep.run_window(ctx, name, b, r)
+    sweep.reset_state()
+    L = 'C11/%s/after-another-word' % name
+    if o2.kind != 'text':
+        ctx.check(L, False, 'second decoding: ' + o2.kind)
+    else:
+        ctx.check(L, sweep.pieces_equal(o1.pieces, o2.pieces) if ctx.symbolic else o1.text == o2.text,
+                  'the same record renders differently after the decoder handled another word')
+    ctx.reach()
 
 
 def run_ioctl(ctx):
